@@ -140,6 +140,7 @@ static struct upipe *upipe_zpsrc_alloc(struct upipe_mgr *mgr,
             || !ubase_check(uref_pic_flow_get_fps(flow_def, &fps))
             || !ubase_check(uref_pic_flow_get_hsize(flow_def, &hsize))
             || !ubase_check(uref_pic_flow_get_vsize(flow_def, &vsize))) {
+        uref_free(flow_def);
         upipe_zpsrc_free_flow(upipe);
         return NULL;
     }
